@@ -19,7 +19,7 @@ def main(tier, t0):
     # other public calls (profile_graph, a SHACL rendering) between the two calls: made in the real pipeline of every end-to-end witness
     tasks += stage_check.tasks_for("C18", tier, scenario="history+profile_graph+shacl", sizes=lambda t, k: [k + 1], structure_filter=lambda st: st["name"] in ("opt-literal", "literal-cards", "ref-vs-iri"))
     tasks += [("harness.api", "run_history", "api/" + n, dict(name=n)) for n in ("examples-repeat", "file-vs-string", "file-vs-string-10000-lines", "shared-namespaces-dict",
-                                                                                 "format-after-format", "min-iri-repeat")]
+                                                                                 "format-after-format", "min-iri-repeat", "cross-shaper-isolation", "ignore-several-lists")]
     return stage_check.main("C18", tier, t0, tasks=tasks,
                             extra_meta=dict(functions_encoded=["shexer.shaper.Shaper.shex_graph (memoised stages _target_classes_dict/_profile/_shape_list)", "Shaper._launch_class_shexer"],
                                             assumptions=["obligations api/* are concrete regression replays (call sequences of length <= 3, real files, > 10 000 output lines): they are NOT solver-decided; "
